@@ -15,7 +15,10 @@ Nothing in here knows anything about stbem.
 """
 import itertools
 import math
+import os
+import subprocess
 import sys
+import tempfile
 import time
 import traceback
 from fractions import Fraction
@@ -474,6 +477,10 @@ class Engine:
         self.stats = dict(paths=0, pruned=0, branch_queries=0, verdict_queries=0, solver_s=0.0, forks=0,
                           verdict_unsat=0, verdict_sat=0, verdict_trivial=0)
         self.smt2_log = None  # list collecting verdict queries as SMT-LIB2 (second-solver re-check)
+        # second solver: in the thorough tier a sample of the verdict queries of every engine is re-discharged with the
+        # cvc5 binary; a disagreement makes the run inconclusive, a cvc5 timeout is only counted
+        self.second_limit = 12 if os.environ.get('VERIF_TIER') == 'thorough' and not os.environ.get('VERIF_NO_CVC5') else 0
+        self.stats.update(cvc5_rechecked=0, cvc5_agree=0, cvc5_unknown=0)
         self.in_run = False
 
     def close(self):
@@ -849,11 +856,45 @@ class Engine:
         r, m = self._check(z3.Not(e), *extra)
         if r == z3.unknown:
             raise Inconclusive('solver unknown on verdict %s' % label)
+        if self.stats['cvc5_rechecked'] < self.second_limit:
+            self._second_opinion(z3.Not(e), extra, r, label)
         if r == z3.unsat:
             self.stats['verdict_unsat'] += 1
             return True, None
         self.stats['verdict_sat'] += 1
         return False, m
+
+    def _second_opinion(self, neg, extra, r, label):
+        s = z3.Solver()
+        for a in self.solver.assertions():
+            s.add(a)
+        s.add(neg)
+        for x in extra:
+            s.add(x)
+        text = '(set-logic ALL)\n' + s.to_smt2()
+        fd, path = tempfile.mkstemp(suffix='.smt2', prefix='vf_')
+        try:
+            with os.fdopen(fd, 'w') as f:
+                f.write(text)
+            try:
+                out = subprocess.run(['cvc5', '--lang=smt2', '--tlimit=20000', path], capture_output=True, text=True,
+                                     timeout=40).stdout
+            except (subprocess.TimeoutExpired, OSError):
+                out = 'unknown'
+        finally:
+            try:
+                os.unlink(path)
+            except OSError:
+                pass
+        self.stats['cvc5_rechecked'] += 1
+        ans = [ln.strip() for ln in out.splitlines() if ln.strip() in ('sat', 'unsat', 'unknown')]
+        if '(error' in out or not ans or ans[0] == 'unknown':
+            self.stats['cvc5_unknown'] += 1
+            return
+        if (ans[0] == 'unsat') == (r == z3.unsat):
+            self.stats['cvc5_agree'] += 1
+        else:
+            raise Inconclusive('z3 (%s) and cvc5 (%s) disagree on verdict %s' % (r, ans[0], label))
 
     def feasible(self, cond, extra=()):
         """sat? of path condition and cond (reachability witnesses, tight-boundary twins)."""
